@@ -141,6 +141,7 @@ func init() {
 				Expect: "C36.lpmkey/IpTrie.InsertKey"},
 		},
 	})
+	c36PositionDoc(registry["C36"]) // s7 hook: fixtures + documentation of C36.position (engine_C36pos.go)
 }
 
 // ------------------------------------------------------------------ model --
@@ -727,6 +728,7 @@ func runC36(c *Ctx) {
 	c.Rule("C36.prune", "E-PATH/E-GUARD", "the pruner's result is stored back where its argument was loaded from; data is cleared only while a child is left; a data-less node is not returned after its child subtree vanished; a node is replaced only by a child whose sibling slot is nil; Update publishes a new node over a slot only if the slot is nil or the occupant is re-attached", 10)
 	c.Rule("C36.dispatch", "E-TWIN", "under Version()==k a non-comma-ok type assertion names the concrete CIDR/Addr type whose Version() returns k", 3)
 	c.Rule("C36.lpmkey", "E-PAIR", "calc.IpTrie: every patricia-trie operation of a method is keyed by one encoding expression of the method's own CIDR/Addr parameter; all exact-key operations use one encoding, all prefix walks one", 5)
+	c.Rule("C36.position", "E-SIBLING", c36PositionText, 7) // s7 hook: bit position of every child index (engine_C36pos.go)
 
 	// the families are independent: a lost anchor in one is recorded as a broken check
 	// but does not keep the others from being evaluated
@@ -734,6 +736,7 @@ func runC36(c *Ctx) {
 	c36Isolated(c, func() { yields = c36Marker(m) })
 	c36Isolated(c, func() { c36Contain(m, yields) })
 	c36Isolated(c, func() { c36Descend(m) })
+	c36Isolated(c, func() { c36Position(c, m, nil) }) // s7 hook (engine_C36pos.go)
 	c36Isolated(c, func() { c36Prune(m) })
 	c36Isolated(c, func() { c36Dispatch(m) })
 	c36Isolated(c, func() { c36LpmKey(c, c36LoadCalc(c)) })
